@@ -324,10 +324,25 @@ func typeEdits(g *Gen, prog *GProgram, r *Rand) string {
 		return "statement-fn-as-origin"
 	case 0:
 		return "none"
-	case 1: // mis-declare a variable
+	case 1: // mis-declare a variable: another type, or a type that does not exist (often on a variable with an origin)
 		if len(prog.Vars) > 0 {
 			v := prog.Vars[r.Intn(len(prog.Vars))]
-			v.Type = r.Pick(append(append([]string{}, typeNames...), "monetery", "int"))
+			if r.Chance(1, 2) {
+				for _, w := range prog.Vars {
+					if w.Origin != nil {
+						v = w
+						break
+					}
+				}
+			}
+			if r.Chance(1, 2) {
+				v.Type = r.Pick([]string{"monetery", "int", "acount", "amount", "str"})
+				if v.Origin == nil && r.Chance(1, 2) {
+					v.Origin = &GFnCall{Name: "meta", Args: []*GExpr{acct(r.Pick(accountPool)), {Kind: XString, S: "k"}}}
+				}
+				return "unknown-type"
+			}
+			v.Type = r.Pick(typeNames)
 			return "redeclare-type"
 		}
 	case 2: // undeclare a variable
